@@ -1,4 +1,6 @@
 import MJ.Model.Reloader
+import MJ.Model.LoaderStore
+import MJ.Model.ReloaderLife
 import Std.Data.HashSet
 /-!
 Line driver for C20.  Input lines (`<cfg>` has no blanks, fields separated by `.`):
@@ -209,8 +211,128 @@ def wfsPredict (site : String) (ops : List String) : String := Id.run do
     | _ => res := res ++ "?"
   return s!"{res}|C={σ.creates}"
 
+
+/-! ### the template store that fast reload clears (`store <ops>`)
+ops (comma separated), names `a b c`, versions `0`–`3` (source text `<name>#<v>`), `x` = a source that does
+not compile, and for the disk also `-` (no such file) and `!` (the loader fails):
+`L` set_loader · `D<n><v>` the loader's answer for n changes · `B<n><v>` add_template · `O<n><v>`
+add_template_owned · `R<n>` remove_template · `C` clear_templates · `G<n>` get_template · `E<n>` render `{% extends n %}` · `I<n><m>` render
+`{% include [n, m] ignore missing %}`.  Observation per B/O/G/I, joined by `,`. -/
+
+namespace StoreDrive
+open MJ.LoaderStore
+
+def okSrc (src : String) : Bool := !src.startsWith "{%"
+
+def srcOf (n : Char) (v : Char) : String := if v == 'x' then "{% x" else s!"{n}#{v}"
+
+def diskFn (d : List (String × LoadAns)) (name : String) : LoadAns := (d.lookup name).getD .missing
+
+def showRes : Res → String
+  | .tmpl src => "t" ++ src
+  | .notFound => "nf"
+  | .loaderErr => "le"
+  | .syntaxErr => "se"
+
+def predict (ops : List String) : String := Id.run do
+  let mut s : Store := {}
+  let mut disk : List (String × LoadAns) := []
+  let mut out : List String := []
+  for op in ops do
+    match op.toList with
+    | ['L'] => s := setLoader s
+    | ['C'] => s := clear s
+    | ['D', n, v] =>
+      let a : LoadAns := if v == '-' then .missing else if v == '!' then .err else .found (srcOf n v)
+      disk := (n.toString, a) :: disk.filter (fun p => p.1 != n.toString)
+    | ['B', n, v] =>
+      match insertBorrowed okSrc s n.toString (srcOf n v) with
+      | some s' => s := s'; out := out ++ ["ok"]
+      | none => out := out ++ ["se"]
+    | ['O', n, v] =>
+      match insertOwned okSrc s n.toString (srcOf n v) with
+      | some s' => s := s'; out := out ++ ["ok"]
+      | none => out := out ++ ["se"]
+    | ['R', n] => s := remove s n.toString
+    | ['G', n] | ['E', n] =>
+      let g := get okSrc (diskFn disk) s n.toString
+      s := g.store
+      out := out ++ [showRes g.res ++ (if g.called then "+" else "")]
+    | ['I', n, m] =>
+      let mut calls := 0
+      let mut res := "none"
+      for c in [n, m] do
+        if res == "none" then
+          let g := get okSrc (diskFn disk) s c.toString
+          s := g.store
+          if g.called then calls := calls + 1
+          match g.res with
+          | .notFound => pure ()
+          | r => res := showRes r
+      out := out ++ [s!"{res}+{calls}"]
+    | _ => out := out ++ ["?" ++ op]
+  return ",".intercalate out
+
+end StoreDrive
+
+/-! ### lifetime of the reloader, two reloaders (`life <ops>`; op language in harness c20_life.inc) -/
+namespace LifeDrive
+
+def runToEndL (l : LState) (i : Nat) : LState := Id.run do
+  let mut l := l
+  for _ in [0:64] do
+    match lstep l (.thread i) with
+    | some l' => l := l'
+    | none => break
+  return l
+
+def opThreads (op : String) : List Thread :=
+  match op with
+  | "A" => [.acqIdle {}]
+  | "R" | "K" => [.reqIdle]
+  | "F0" => [.fastIdle false] | "F1" => [.fastIdle true]
+  | "B0" => [.cbIdle false] | "B1" => [.cbIdle true]
+  | _ => []
+
+def split2 (op : String) : Bool × String :=
+  if op.startsWith "2" then (true, (op.drop 1).toString) else (false, op)
+
+def predict (ops : List String) : String := Id.run do
+  let t1 := (ops.filter fun o => !(split2 o).1).flatMap fun o => opThreads (split2 o).2
+  let t2 := (ops.filter fun o => (split2 o).1).flatMap fun o => opThreads (split2 o).2
+  let mut p : PState := ⟨linit t1, linit t2⟩
+  let mut i1 := 0
+  let mut i2 := 0
+  let mut out : List String := []
+  for o in ops do
+    let (second, op) := split2 o
+    let l := if second then p.r2 else p.r1
+    let i := if second then i2 else i1
+    let mut l' := l
+    match op with
+    | "A" =>
+      l' := runToEndL l i
+      out := out ++ [match l'.base.acqLog.head? with
+        | some a => if l'.base.acqLog.length > l.base.acqLog.length then s!"g{a.env.gen}" else "no-guard"
+        | none => "no-guard"]
+    | "R" | "K" | "F0" | "F1" | "B0" | "B1" => l' := runToEndL l i
+    | "D" => l' := (lstep l .drop).getD l
+    | "Q" | "q" => out := out ++ [if l.alive then "d0" else "d1"]
+    | _ => out := out ++ ["?" ++ op]
+    let n := (opThreads op).length
+    if second then
+      p := { p with r2 := l' }; i2 := i2 + n
+    else
+      p := { p with r1 := l' }; i1 := i1 + n
+  out := out ++ [s!"C={p.r1.base.creates}/O={p.r1.base.onCalls}", s!"C={p.r2.base.creates}/O={p.r2.base.onCalls}"]
+  return ",".intercalate out
+
+end LifeDrive
+
 def handle (line : String) (out : IO.FS.Stream) : IO Unit := do
   match line.trimAscii.toString.splitOn " " with
+  | ["life", ops] => out.putStrLn s!"life\t{ops}\t{LifeDrive.predict (ops.splitOn ",")}"
+  | ["store", ops] => out.putStrLn s!"store\t{ops}\t{StoreDrive.predict (ops.splitOn ",")}"
   | ["wfs", site, ops] => out.putStrLn s!"wfs\t{site}\t{ops}\t{wfsPredict site (ops.splitOn ",")}"
   | cfgS :: mode =>
     match parseCfg cfgS with
